@@ -49,6 +49,12 @@ var DeepStates = map[string][]string{
 	"conflicted-pending": {"x.pa", "d", "x.pa", "d", "y.sp", "x.cc", "d"},
 	"binding-withdrawn":  {"x.e", "d", "x.e", "d", "x.bn", "d", "x.e", "d", "x.e", "d", "x.e", "d", "x.bw", "d"},
 	"staking-withdrawn":  {"x.st", "d", "x.e", "d", "x.e", "d", "x.sw", "d"},
+	// the SELECTED wallet is removed (special handling below: B is selected before its removal)
+	"selected-removed": {"x.ab", "d"},
+	// chain events around withdrawals: the block holding the withdrawal of a staking / binding
+	// deposit is reorganised away (and the follower must survive it)
+	"staking-withdrawal-reorged": {"x.st", "d", "x.e", "d", "x.e", "d", "x.sw", "d", "r.1.E", "d"},
+	"binding-withdrawal-reorged": {"x.e", "d", "x.e", "d", "x.bn", "d", "x.e", "d", "x.e", "d", "x.e", "d", "x.bw", "d", "r.1.E", "d"},
 	// + a relayed payment to the wallet whose binding target has an unknown type
 	"odd-binding-target": {"x.e", "d", "x.e", "d", "x.pa", "d"},
 }
@@ -326,13 +332,37 @@ func (m *Model) Run(hist []string) *proto.Result {
 			return res
 		}
 	}
+	if hist[0] == "selected-removed" {
+		B := w.Wallets["B"]
+		if _, err := w.I.W.UseWallet(B.ID); err != nil {
+			res.Err = "UseWallet(B): " + err.Error()
+			return res
+		}
+		for _, ev := range []string{"k.rm", "k.run"} {
+			if ok, err := w.Apply(ev); err != nil || !ok {
+				res.Err = fmt.Sprintf("state selected-removed: %s enabled=%v err=%v", ev, ok, err)
+				return res
+			}
+		}
+	}
+	if strings.HasSuffix(hist[0], "-reorged") {
+		for len(w.N.Queue) > 0 { // every block of the new branch
+			if err := w.Deliver(); err != nil {
+				res.Err = err.Error()
+				return res
+			}
+		}
+	}
+	for _, p := range w.Panics {
+		res.Viol = append(res.Viol, "while the chain events of state "+hist[0]+" were delivered: "+p)
+	}
 	if hist[0] == "odd-binding-target" {
 		if err := w.OddBindingEvents(); err != nil {
 			res.Err = "odd binding events: " + err.Error()
 			return res
 		}
 	}
-	if hist[0] != "not-selected" {
+	if hist[0] != "not-selected" && hist[0] != "selected-removed" {
 		w.I.W.UseWallet(w.Wallets["A"].ID)
 	}
 	srv, err := api.NewAPIServer(w.I.Srv, w.I.W, func() {}, w.I.Cfg)
